@@ -52,11 +52,16 @@ def run(tier, seed, replay=None):
         runs = {}
         first = None
         masks = ["0", "0-1", "0-3", None] if shutil.which("taskset") else [None]
+        masks_done = False
         for mask in masks:
+            if masks_done:
+                break
             cmd = vlib.impl_cmd(exe_par)
             if mask is not None:
                 cmd = ["taskset", "-c", mask] + cmd
-            out, ab = vlib.run_impl_parallel(cmd, L, case_prefix="case ", timeout=1800)
+            # a broken pool can hang or spin: short watchdog, a handful of restarts per chunk, and no further affinities once
+            # the parallel build has been seen to abort
+            out, ab = vlib.run_impl_parallel(cmd, L, case_prefix="case ", timeout=(90 if tier == "quick" else 600), max_restarts=3)
             nd = 0
             for k, (ln, a, b, m) in enumerate(zip(L, I, out, M)):
                 if b != a:
@@ -65,6 +70,8 @@ def run(tier, seed, replay=None):
                         start = max(j for j in range(k + 1) if L[j].startswith("case "))
                         first = (L[start:k + 1], a, b, m, mask)
             runs[mask or "all"] = {"lines": len(L), "differing_lines": nd, "aborts": len(ab)}
+            if ab:
+                masks_done = True
             if ab and first is None:
                 i, why, err = ab[0]
                 start = max(j for j in range(i + 1) if L[j].startswith("case "))
@@ -84,7 +91,9 @@ def run(tier, seed, replay=None):
             exe_t = build_par(tsan=True)
             share = L[: next((k for k, ln in enumerate(L) if ln.startswith("case ") and int(ln.split()[1]) >= (150 if tier == "quick" else 3000)), len(L))]
             env = dict(os.environ, TSAN_OPTIONS="halt_on_error=1 exitcode=66 report_signal_unsafe=0")
-            out, ab = vlib.run_impl_parallel(vlib.impl_cmd(exe_t, aslr_off=False), share, case_prefix="case ", timeout=3600, env=env)
+            if masks_done:
+                raise vlib.BuildFailure("skipped: the parallel build already aborted")
+            out, ab = vlib.run_impl_parallel(vlib.impl_cmd(exe_t, aslr_off=False), share, case_prefix="case ", timeout=(300 if tier == "quick" else 3600), env=env, max_restarts=3)
             reports = [(i, why, err) for (i, why, err) in ab if "ThreadSanitizer" in (err or "")]
             other = [(i, why, err) for (i, why, err) in ab if "ThreadSanitizer" not in (err or "")]
             tsan = {"lines": len(share), "reports": len(reports), "other_aborts": len(other)}
